@@ -1,5 +1,6 @@
 import SkopsModel.Io.Load
 import SkopsModel.Lemmas.IoAudit
+import SkopsModel.Lemmas.GetTreeInv
 import SkopsModel.Lemmas.SortDedup
 import SkopsModel.Generated.Specs
 import SkopsModel.Generated.Facts
@@ -136,6 +137,32 @@ theorem C01_current (root : Node) (T : List String) (hnr : root.NoRefs)
     (hload : loadTree Generated.table root T = .constructed ev) :
     ∀ e ∈ ev, EventOK T Generated.table.allDefaults e :=
   load_only_vouched Generated.table table_vouched root T hnr hx ev hload
+
+/-- generated side-condition for the memo invariant: the loaders that look their node up in the memo (`CachedNode`)
+neither memoize themselves nor build children -/
+theorem table_ref_kinds_inert : Generated.table.RefKindsInert = true := by decide
+
+/-- **C01 for every archive**: whatever JSON `schema.json` holds — any kinds in any slots, any nesting, repeated,
+cross-wired or cyclic ids, wrong value types — and whatever the members and the trusted list are: if `load`
+goes through, every name resolution that `construct` performs is of a name in `T`, a default-trusted name or a
+fixed documented constructor.  No hypothesis about the tree is left: the memo invariant (`getTreeRoot_good`) is
+proved for `getTree` itself. -/
+theorem load_archive_only_vouched (hv : tbl.Vouched = true) (hr : tbl.RefKindsInert = true)
+    (schema : J) (members : List String) (fuel : Nat) (T : List String) (ev : List Event)
+    (hload : load tbl schema members fuel T = .constructed ev) :
+    ∀ e ∈ ev, EventOK T tbl.allDefaults e := by
+  unfold load at hload
+  split at hload
+  · cases hload
+  · rename_i root hroot
+    obtain ⟨hnt, hx⟩ := getTreeRoot_good tbl hr schema members fuel root hroot
+    exact load_only_vouched_refs tbl hv root T (node_refsAudited_of_noTo tbl T root hnt) hx ev hload
+
+/-- … instantiated on the tables regenerated from the current source -/
+theorem C01_archive_current (schema : J) (members : List String) (fuel : Nat) (T : List String) (ev : List Event)
+    (hload : load Generated.table schema members fuel T = .constructed ev) :
+    ∀ e ∈ ev, EventOK T Generated.table.allDefaults e :=
+  load_archive_only_vouched Generated.table table_vouched table_ref_kinds_inert schema members fuel T ev hload
 
 /-- … and for trees with references, under the invariant the driver checks on each of them -/
 theorem C01_current_refs (root : Node) (T : List String) (hra : root.refsAuditedB Generated.table T = true)
